@@ -51,6 +51,10 @@ CONSTANTS DevRefork,         \* TRUE: a job re-entering after waiting for limits
           DevDoubleRelease,  \* TRUE: a job whose function finished (units released at Done) and whose
                              \* result evaluation then fails releases its units again in Reject
                              \* (redun as pinned; fixed)
+          DevCseErrorArg,    \* TRUE (as built): an error replayed from a recorded failed call node (CSE hit)
+                             \* is a deserialised copy with the recorded traceback attached, so the
+                             \* recover call catch() makes for it has a different argument hash than
+                             \* the one made for the original error object
           DevForkAtExec      \* TRUE (as built): a handle's fork key is the number of handle uses of the
                              \* parent *at the time the job first executes*, which depends on when its
                              \* other arguments resolve; FALSE: the key is positional
@@ -337,7 +341,10 @@ Reject(j) ==
       \* twins have different parents (duplicates under one parent share one job), so every parent
       \* gets at most one new recover job in this step
       recPath(x) == Append(Parent(x), Cardinality(Kids(Parent(x))) + 1)
-      recKey(x) == <<jobs[x].t, jobs[x].arg, ver[RecTask], ErrId(jobs[x].t, jobs[x].arg)>>
+      \* the error object handed on: the original, or (the failing job was itself answered by CSE)
+      \* the deserialised copy; collapsed twins receive whatever object j rejects with
+      errOf(x) == ErrId(jobs[x].t, jobs[x].arg) + (IF DevCseErrorArg /\ jobs[j].cached = "cse" THEN 5000 ELSE 0)
+      recKey(x) == <<jobs[x].t, jobs[x].arg, ver[RecTask], errOf(x)>>
       caughtSet == {failing[i] : i \in {n \in 1..Len(failing) : guarded(failing[n])}}
       \* unguarded failures reject their parent: one event per parent, unless it failed already
       plain == SelectSeq(failing, LAMBDA x : x # <<>> /\ ~guarded(x))
@@ -362,7 +369,7 @@ Reject(j) ==
                  ELSE jobs[jj]]
       jobs2 == [p \in {recPath(x) : x \in caughtSet} |->
                   LET x == CHOOSE y \in caughtSet : recPath(y) = p IN
-                  NewRec(ErrId(jobs[x].t, jobs[x].arg), x, recKey(x))] @@ jobs1
+                  NewRec(errOf(x), x, recKey(x))] @@ jobs1
   IN /\ jobs' = jobs2 /\ used' = u1 /\ waiting' = rn[2]
      /\ cse' = IF k \in DOMAIN cse THEN cse ELSE (k :> [ok |-> FALSE, v |-> 0]) @@ cse
      /\ pend' = [kk \in {x \in DOMAIN pend : pend[x] # j} |-> pend[kk]]
@@ -477,6 +484,9 @@ Deterministic ==
 \* C07: the fork key of every handle argument (hence its hash, the args hash and the call hash) is a
 \* function of the program, not of the schedule or of waiting for limits
 ForkByPosition == \A j \in DOMAIN jobs : jobs[j].fk > 0 => jobs[j].fk = PosFk(jobs, j)
+\* always TRUE; reports the programs in which a recover call was made for a CSE-replayed error
+CseErrReport == (\E j \in DOMAIN jobs : jobs[j].isrec /\ jobs[j].arg >= 6000) =>
+                   PrintT("CSEERRDEV " \o ToJson([pi |-> pi]))
 \* always TRUE; reports the programs in which the as-built fork numbering is timing dependent
 ForkReport == ~ForkByPosition => PrintT("FORKDEV " \o ToJson([pi |-> pi]))
 \* C28 over consecutive outcomes: a completed dry run predicts the next real run (no edit between),
